@@ -17,6 +17,15 @@ from ..simkit.simrng import POLICIES, SimRNG
 PID = "C13"
 
 
+class ForeignCircuit(list):
+    """A circuit of some other SDK: only its identity matters to the batching helpers."""
+
+    __hash__ = object.__hash__
+
+    def __eq__(self, other):
+        return self is other
+
+
 class World:
     PID = PID
     TIERS = {
@@ -40,7 +49,7 @@ class World:
     ]
     PROBES_EXPECTED = ["expand-multi-copy", "expand-exact-multiple", "expand-max-1", "batches-multi", "batch-uneven-last", "over-delivery",
                        "peer-fault", "represent-topup", "represent-eliminate", "represent-exact", "discretise", "combine-counts", "combine-bitstrings",
-                       "single-circuit", "adversarial-rng", "combine-aliased-records"]
+                       "single-circuit", "adversarial-rng", "combine-aliased-records", "foreign-circuits", "represent-eliminate-many"]
 
     def gen_plan(self, seed, tier):
         r = random.Random(seed)
@@ -66,16 +75,30 @@ class World:
                 mx = r.choice([1, 2, 3, 5, 10, 16, 100])
                 circs = [[r.randint(0, 1) for _ in range(n)] for _ in range(k)]
                 a = {"circs": circs, "shots": [shots_for(mx) for _ in range(k)], "max": mx if op == "expand" else r.choice([1, 2, 3, 4, 10, 0, -1]),
+                     "foreign": [r.randint(0, 3) for _ in range(k)] if r.random() < 0.25 else None,
                      "via": r.choice(["counts", "bitstrings"]), "batchrun": r.random() < 0.5, "memo": r.random() < 0.35}
                 s = {"op": op, "args": a}
                 if cfg["faults"] != "none" and r.random() < 0.15:
                     s["fault"] = {"kind": "peer", "at": r.randrange(0, 5)}
             elif op == "represent":
-                m = r.randint(1, min(2 ** n, 6))
+                m = r.randint(1, min(2 ** n, r.choice([6, 6, 12])))
                 keys = r.sample(range(2 ** n), m)
-                style = r.choice(["rand", "uniform", "halves", "tiny", "zeros"])
+                style = r.choice(["rand", "uniform", "halves", "tiny", "zeros", "overshoot", "overshoot"])
                 ws = []
-                for i in range(m):
+                n_over = None
+                if style == "overshoot" and m >= 4:
+                    # p_i * N = c_i exactly: many x.5 shares (rounded up -> several shots too many) next to shares
+                    # below 0.5 (rounded to zero shots, yet eligible when the surplus is drawn for elimination)
+                    small = r.randint(2, max(2, m // 2))
+                    cs = [r.choice([0.5, 1.5, 1.5, 2.5, 3.5]) for _ in range(m - small)]
+                    rest = sum(cs) % 1
+                    tail = [0.25] * small
+                    tail[0] += (1 - (rest + 0.25 * small) % 1) % 1
+                    cs += tail
+                    r.shuffle(cs)
+                    ws = cs
+                    n_over = int(round(sum(cs)))
+                for i in range(m if not ws else 0):
                     if style == "rand":
                         ws.append(r.random() + 0.01)
                     elif style == "uniform":
@@ -88,7 +111,7 @@ class World:
                         ws.append(r.choice([0.0, 1.0, 2.0]))
                 if all(w == 0 for w in ws):
                     ws[0] = 1.0
-                s = {"op": "represent", "args": {"keys": keys, "weights": ws, "N": r.choice([1, 2, 3, 5, 10, 33, 100, 257]),
+                s = {"op": "represent", "args": {"keys": keys, "weights": ws, "N": n_over or r.choice([1, 2, 3, 5, 10, 33, 100, 257]),
                                                  "keystyle": r.choice(["tuple", "str"])}}
             else:
                 m = r.randint(1, 8)
@@ -220,7 +243,14 @@ class World:
         from orquestra.quantum.circuits import split_into_batches
 
         be = st["backend"]
-        circs = [gen.build_circuit(gen.basis_circuit(b)) for b in a["circs"]]
+        foreign = a.get("foreign")
+        if foreign:
+            # "the exact type of the circuits does not matter": another SDK's circuit, here a sized sequence of
+            # instructions (an empty one - e.g. for an identity term - is falsy)
+            circs = [ForeignCircuit(["op"] * k) for k in foreign]
+            ctx.probe("foreign-circuits")
+        else:
+            circs = [gen.build_circuit(gen.basis_circuit(b)) for b in a["circs"]]
         shots, mb = list(a["shots"]), a["max"]
         ok, res = call(lambda: list(split_into_batches(circs, shots, mb)))
         ctx.called("split_into_batches")
@@ -246,6 +276,9 @@ class World:
                 ctx.nontrivial = True
                 if len(list(res[-1][0])) < mb:
                     ctx.probe("batch-uneven-last")
+        if foreign:
+            ctx.log("batches", "ok-foreign", _sig=f"{len(circs)}/{mb}")
+            return
         # run every batch through the peer
         f = step.get("fault")
         be.arm(step["rs"], f["at"] if f else None)
@@ -292,6 +325,8 @@ class World:
             ctx.probe("represent-exact" if rounded == N else ("represent-topup" if rounded < N else "represent-eliminate"))
             if rounded != N:
                 ctx.nontrivial = True
+            if rounded - N >= 2 and sum(1 for p in before.values() if 0 < p * N < 0.5) >= 2:
+                ctx.probe("represent-eliminate-many")
             ctx.check(len(bs) == N, "conservation", "represent-count", f"{len(bs)} shots instead of {N} for {before} (rounded total {rounded})")
             support = {k for k, p in before.items() if p > 0}
             bad = [tuple(t) for t in bs if tuple(t) not in support]
